@@ -199,6 +199,29 @@ def random_cfg_keys(seed, tier):
     return batches
 
 
+def tight_key_batches(seed, tier):
+    """Keys that share pitches, in every collision mode, on a MIDI output that is full whenever the device wants to
+    write (the application's output channel has 8 slots and is shared by all devices; here: 1-2 slots, filled up by the
+    harness before every event and before the disconnect, read only slowly): every message still has to arrive, in order."""
+    rng = random.Random(seed * 7907 + 41)
+    n_walks, length = (5, 60) if tier == "quick" else (30, 150)
+    batches = []
+    keys = {"KEY_Q": {"n": 60, "o": 0}, "KEY_W": {"n": 60, "o": 0}, "KEY_E": {"n": 60, "o": 0}, "KEY_R": {"n": 72, "o": 0},
+            "KEY_T": {"n": 61, "o": 1}, "KEY_Y": {"n": 127, "o": 0}}
+    acts = {"KEY_F1": "octave_down", "KEY_F2": "octave_up", "KEY_ESC": "panic"}
+    for mode in ("off", "no_repeat", "interrupt", "retrigger"):
+        for cap in (1, 2):
+            cfg = base_cfg(mode=mode, dChan=rng.randrange(16), actions=acts, maps=[{"name": "M1", "keys": keys, "axes": {}}])
+            walks = []
+            for _ in range(n_walks):
+                w = random_key_walk(rng, cfg, length, sorted(keys), sorted(acts), p_action=0.08)
+                if not (w and w[-1]["ev"] == "disconnect"):
+                    w.append({"ev": "disconnect"})
+                walks.append(w)
+            batches.append({"cfg": cfg, "cfgmode": "literal", "sub": "", "walks": walks, "outcap": cap, "slow_us": 40, "prefill": True})
+    return batches
+
+
 def random_exit(seed, tier):
     """Factory keyboard (exit sequence LEFTALT+ESC, ESC is also panic) and longer sequences whose
     members are note keys / action keys / unmapped keys; the sequence is completed and released often."""
@@ -348,6 +371,57 @@ def c06_batches(seed, tier):
                         w.append({"ev": "axis", "a": a, "raw": v if rng.random() < 0.8 else rng.randint(mn, mx)})
                 walks.append(w)
             batches.append({"cfg": cfg, "cfgmode": "literal", "sub": "", "walks": walks})
+    batches += c06_mapping_batches(seed, tier)
+    return batches
+
+
+def c06_mapping_batches(seed, tier):
+    """The transfer function follows the mapping in force: the same axes are defined in three mappings with other dead
+    zones (own, the sub-handler's default, the global default), orientation, controllers and kinds; mapping keys are
+    tapped between reports (C06_SentValue judges every transmitted value against the definition in force)."""
+    rng = random.Random(seed * 613 + 29)
+    batches = []
+    n_walks, length = (8, 250) if tier == "quick" else (60, 600)
+    acts = {"KEY_F11": "mapping_down", "KEY_F12": "mapping_up"}
+    for mn, mx in ((-128, 127), (0, 255)):
+        for dsrc in ("specific", "handler", "global"):
+            c = (mn == 0)
+            m1 = {"ABS_X": axis("cc", cc=20, dzn=0, dzd=1, dzsrc="specific", centre=c),
+                  "ABS_Y": axis("pitch_bend", off=1, dzn=1, dzd=10, dzsrc=dsrc, centre=c),
+                  "ABS_Z": axis("cc", cc=22, ccNeg=23, offNeg=2, bidi=True, dzn=1, dzd=10, dzsrc=dsrc, centre=c)}
+            m2 = {"ABS_X": axis("cc", cc=20, dzn=1, dzd=2, dzsrc="specific", centre=c),
+                  "ABS_Y": axis("pitch_bend", off=1, dzn=1, dzd=4, dzsrc=dsrc, centre=c),
+                  "ABS_Z": axis("cc", cc=22, ccNeg=23, offNeg=2, bidi=True, dzn=1, dzd=4, dzsrc=dsrc, centre=c)}
+            m3 = {"ABS_X": axis("cc", cc=30, flip=True, dzn=1, dzd=10, dzsrc="specific", centre=c),
+                  "ABS_Y": axis("cc", cc=31, dzn=0, dzd=1, dzsrc=dsrc, centre=c),
+                  "ABS_Z": axis("pitch_bend", off=3, dzn=0, dzd=1, dzsrc=dsrc, centre=c)}
+            info = {a: {"min": mn, "max": mx} for a in m1}
+            maps = [{"name": "M1", "keys": {}, "axes": m1}, {"name": "M2", "keys": {}, "axes": m2},
+                    {"name": "M3", "keys": {}, "axes": m3}]
+            cfg = base_cfg(dChan=rng.randrange(16), dMap=rng.randrange(3) + 1, actions=acts, maps=maps, axinfo=info)
+            mid = (mn + mx) // 2 if mn == 0 else 0
+            walks = []
+            for _ in range(n_walks):
+                w = []
+                for _ in range(length):
+                    if rng.random() < 0.12:
+                        k = rng.choice(["KEY_F11", "KEY_F12"])
+                        w += [{"ev": "press", "k": k}, {"ev": "release", "k": k}]
+                        continue
+                    a = rng.choice(sorted(info))
+                    r = rng.random()
+                    if r < 0.2:
+                        raw = rng.choice([mn, mx, mid])
+                    elif r < 0.6:
+                        raw = mid + rng.randint(-(mx - mid) * 6 // 10, (mx - mid) * 6 // 10)     # inside the wider dead zones
+                    else:
+                        raw = rng.randint(mn, mx)
+                    raw = max(mn, min(mx, raw))
+                    if any(on_float_boundary(info[a], mp["axes"][a], raw) for mp in maps):
+                        continue
+                    w.append({"ev": "axis", "a": a, "raw": raw})
+                walks.append(w)
+            batches.append({"cfg": cfg, "cfgmode": "literal", "sub": "pad" if dsrc == "global" else "", "walks": walks})
     return batches
 
 
@@ -422,6 +496,34 @@ def c07_batches(seed, tier):
                 order = rng.sample(sorted(ax), 2)
                 w.append({"ev": "axis", "a": order[0], "raw": v})
                 w.append({"ev": "axis", "a": order[1], "raw": rng.choice([v, v, -v if v != -128 else 127])})
+            walks.append(w)
+        batches.append({"cfg": cfg, "cfgmode": "literal", "sub": "", "walks": walks})
+    # controller numbers at the ends of the range: 0 (Bank Select) and 119 are controllers like any other, on either side
+    # (every number is used by one axis only: the property speaks of distinct controller numbers)
+    for flip, zero_neg in ((False, True), (True, True), (False, False), (True, False)):
+        ax = {"ABS_X": axis("cc", cc=1 if zero_neg else 0, ccNeg=0 if zero_neg else 1, off=0, offNeg=0, bidi=True, flip=flip, dzn=0, dzd=1),
+              "ABS_RX": axis("cc", cc=118 if zero_neg else 119, ccNeg=119 if zero_neg else 118, off=4, offNeg=4, bidi=True,
+                             centre=True, flip=flip, dzn=1, dzd=10),
+              "ABS_Y": axis("cc", cc=2, ccNeg=3, off=8, offNeg=9, bidi=True, flip=not flip, dzn=1, dzd=10)}
+        info = {"ABS_X": {"min": -128, "max": 127}, "ABS_RX": {"min": 0, "max": 255}, "ABS_Y": {"min": -32768, "max": 32767}}
+        cfg = base_cfg(dChan=rng.randrange(16), actions={"KEY_F9": "cc_learning"},
+                       maps=[{"name": "M1", "keys": {}, "axes": ax}], axinfo=info)
+        walks = []
+        for _ in range(6 if tier == "quick" else 30):
+            w, learning = [], False
+            for _ in range(150):
+                if rng.random() < 0.06:
+                    w.append({"ev": "release" if learning else "press", "k": "KEY_F9"})
+                    learning = not learning
+                    continue
+                a = rng.choice(sorted(ax))
+                mn, mx = info[a]["min"], info[a]["max"]
+                mid = (mn + mx) // 2 if mn == 0 else 0
+                raw = rng.choice([mn, mx, mid, mid + 1, rng.randint(mn, mx), rng.randint(mn, mx)])
+                if not on_float_boundary(info[a], ax[a], raw):
+                    w.append({"ev": "axis", "a": a, "raw": raw})
+            if learning:
+                w.append({"ev": "release", "k": "KEY_F9"})
             walks.append(w)
         batches.append({"cfg": cfg, "cfgmode": "literal", "sub": "", "walks": walks})
     # back-pressure on the MIDI output (the application's channel has 8 slots, a port can be slow): a one-slot channel
